@@ -1,11 +1,68 @@
-import TinysetModel.Proofs.Consts
-/-! C19 — see /verif/properties.jsonl.  Theorems for this property are being added; the ones
-below are the obligations checked so far. -/
+import TinysetModel.Proofs.SerdeSpec
+import TinysetModel.Proofs.CfgInst
+import TinysetModel.Proofs.Demo
+/-! C19 — the compactserde round trip reproduces the set within one build.
+
+Model (`Model/Ops.lean`): `toArray c r` is the experimental `to_array` — for a heap set the header fields `sz`,
+`bits` followed by the `cap` raw words, for an inline or empty set the tagged word itself (one u64 for
+SetU64/SetUsize, two u32 halves for SetU32); `fromArray c g v` is `from_array` — decides inline vs heap from the
+LENGTH of the array (`> 1`, resp. `> 2`), allocates `with_capacity_and_bits(len - 2, v[1])`, copies the words.
+The theorems say more than "equal set": the round trip returns the IDENTICAL representation (same layout,
+capacity, placeholder and word positions), for every layout, every RNG oracle and state, and it does not
+advance the RNG state (`with_capacity_and_bits` draws only for `bits = 0`, which no well-formed heap value has).
+"Within one build": the raw words include tables positioned by this build's hash arithmetic, so nothing is
+claimed across builds or platforms. -/
 namespace C19
 open SC
 
-/-- the model's constants are the ones in the current source -/
-theorem consts_match : TinyC.codec64.splits = Gen.bitsplits64 ∧ TinyC.codec32.splits = Gen.bitsplits32 :=
-  ⟨bitsplits64_match, bitsplits32_match⟩
+/-- SetU64 / SetUsize: `from_array(to_array(s))` is `s`, bit for bit, in every layout -/
+theorem compact_roundtrip_u64 {D : Type} (g : Rng D) (r : Rp) (wf : WF cfg64 r) (d : D) :
+    fromArray cfg64 g (toArray cfg64 r) d = .ok (r, d) := roundtrip_u64 g r wf d
+/-- SetU32 -/
+theorem compact_roundtrip_u32 {D : Type} (g : Rng D) (r : Rp) (wf : WF cfg32 r) (d : D) :
+    fromArray cfg32 g (toArray cfg32 r) d = .ok (r, d) := roundtrip_u32 g r wf d
+
+/-- generically, from the three facts about the tag codec that the proof needs (`serde64_ok`, `serde32_ok`) -/
+theorem compact_roundtrip {c : Cfg} (ok : SerdeOK c) {D : Type} (g : Rng D) (r : Rp) (wf : WF c r) (d : D) :
+    fromArray c g (toArray c r) d = .ok (r, d) := roundtrip ok g r wf d
+
+/-- the length of the encoding: `cap + 2` entries for a heap set, one entry otherwise (SetU64) -/
+theorem to_array_length_u64 (r : Rp) (wf : WF cfg64 r) :
+    (toArray cfg64 r).length = match r with | .heap _ cap _ _ => cap + 2 | _ => 1 := toArray_length_u64 r wf
+/-- … two entries otherwise (SetU32) -/
+theorem to_array_length_u32 (r : Rp) (wf : WF cfg32 r) :
+    (toArray cfg32 r).length = match r with | .heap _ cap _ _ => cap + 2 | _ => 2 := toArray_length_u32 r wf
+
+/-- the length test of `from_array` can never confuse the two cases: a heap set has at least 3 entries
+(its capacity is positive), an inline one at most 2 -/
+theorem heap_at_least_3_u64 {sz cap bits : Nat} {a : RH.Tbl} (wf : WF cfg64 (.heap sz cap bits a)) :
+    3 ≤ (toArray cfg64 (.heap sz cap bits a)).length := toArray_heap_ge3_u64 wf
+theorem heap_at_least_3_u32 {sz cap bits : Nat} {a : RH.Tbl} (wf : WF cfg32 (.heap sz cap bits a)) :
+    3 ≤ (toArray cfg32 (.heap sz cap bits a)).length := toArray_heap_ge3_u32 wf
+
+/-- SetU32: the two halves written for an inline set are 32-bit values when the inline payload fits the 64-bit
+word (`t.bits < 2^61`; this bound is a hypothesis here, it is not part of `WF`: `Nat` shifts do not truncate, so the
+round trip itself holds without it) -/
+theorem inline_halves_u32 {r : Rp} (wf : WF cfg32 r) (hr : ∀ sz cap bits a, r ≠ .heap sz cap bits a)
+    (hinl : ∀ t, r = .stack t → t.bits < 2 ^ 61) : ∀ x ∈ toArray cfg32 r, x < 2 ^ 32 := toArray_u32_halves wf hr hinl
+
+/-! ### the hypotheses are satisfiable: every layout of both types -/
+
+example : fromArray cfg64 detRng (toArray cfg64 Demo.bitmap64) () = .ok (Demo.bitmap64, ()) := compact_roundtrip_u64 _ _ Demo.bitmap64_wf _
+example : fromArray cfg64 detRng (toArray cfg64 Demo.plain64) () = .ok (Demo.plain64, ()) := compact_roundtrip_u64 _ _ Demo.plain64_wf _
+example : fromArray cfg64 detRng (toArray cfg64 Demo.dense64) () = .ok (Demo.dense64, ()) := compact_roundtrip_u64 _ _ Demo.dense64_wf _
+example : fromArray cfg64 detRng (toArray cfg64 Demo.inline) () = .ok (Demo.inline, ()) := compact_roundtrip_u64 _ _ Demo.inline64_wf _
+example : fromArray cfg32 detRng (toArray cfg32 Demo.bitmap32) () = .ok (Demo.bitmap32, ()) := compact_roundtrip_u32 _ _ Demo.bitmap32_wf _
+example : fromArray cfg32 detRng (toArray cfg32 Demo.plain32) () = .ok (Demo.plain32, ()) := compact_roundtrip_u32 _ _ Demo.plain32_wf _
+example : fromArray cfg32 detRng (toArray cfg32 Demo.dense32) () = .ok (Demo.dense32, ()) := compact_roundtrip_u32 _ _ Demo.dense32_wf _
+example : fromArray cfg32 detRng (toArray cfg32 Demo.inline) () = .ok (Demo.inline, ()) := compact_roundtrip_u32 _ _ Demo.inline32_wf _
+/-- what the encodings look like -/
+example : toArray cfg64 Demo.bitmap64 = [2, 23, 401016175510691840, 360712192, 0] ∧
+    toArray cfg64 Demo.inline = [559572270880653339] ∧ toArray cfg32 Demo.inline = [27, 130285572] := by decide +kernel
 
 end C19
+
+#print axioms C19.compact_roundtrip_u64
+#print axioms C19.compact_roundtrip_u32
+#print axioms C19.to_array_length_u64
+#print axioms C19.to_array_length_u32
